@@ -186,7 +186,11 @@ def system_block(model, rep):
             rkeys[x.value.args[1].value] = x.targets[0].id if isinstance(x.targets[0], ast.Name) else None
             if registry_of(x.targets[0]) is not None:
                 rkeys[x.value.args[1].value] = ("direct", registry_of(x.targets[0]))
-    ok = set(wkeys) == set(rkeys)
+    # every key the loader reads must be written; a written key the loader ignores loses something only when it holds one of the system's
+    # registries (a count, a comment, a time stamp is information for the reader of the file)
+    unread_state = [k for k in set(wkeys) - set(rkeys) if any(registry_of(y) is not None for y in ast.walk(wkeys[k]) if isinstance(y, ast.Subscript))
+                    and not (isinstance(wkeys[k], ast.Call) and isinstance(wkeys[k].func, ast.Name) and wkeys[k].func.id == "len")]
+    ok = not (set(rkeys) - set(wkeys)) and not unread_state
     if not ok:
         rep.violation("R3", "system.System.save/from_file", "%s:%d" % (rel, save.lineno), "'system' block: written keys %s, read keys %s" % (sorted(wkeys), sorted(rkeys)), "system keys w=%s r=%s" % (sorted(set(wkeys) - set(rkeys)), sorted(set(rkeys) - set(wkeys))))
     for k in ("phases", "phase_conf", "groups", "rails"):
